@@ -232,6 +232,8 @@ func run(seed int64, n int, dir string, _ []string) {
 		oneHistory(g, o, scratch, bin, h)
 	}
 	blockTemps(g, o, 20+n/10)
+	// an internal failure (injected panic) at a random statement of a procedure is an ending by error (panic.go)
+	panicHistories(hc.NewGen(seed*104729+7), o, scratch, 30+n/8)
 }
 
 // blockTemps: COMMIT and ROLLBACK treat a temporary table the same wherever it was declared — at the top level,
